@@ -86,6 +86,7 @@ void CPCA(tensor *x, int scaling, size_t npc, CPCAMODEL *model)
   size_t j;
   size_t k;
   size_t pc;
+  size_t iter;
   matrix *T_T;
   matrix *T;
   matrix *Eb_T;
@@ -246,8 +247,10 @@ void CPCA(tensor *x, int scaling, size_t npc, CPCAMODEL *model)
       t->data[i] = Eb->m[best_block_id]->data[i][best_colvar_id];
     }
 
+    iter = 0;
     while(1){ /* loop until convergence of t */
       LIBSCI_VERIF_TICK(2);
+      iter++;
       mod_t = DVectorDVectorDotProd(t, t);
       if(mod_t == 0.f || _isnan_(mod_t)){
         /* Null component: every block is exactly zero (constant blocks, or all the
@@ -307,7 +310,7 @@ void CPCA(tensor *x, int scaling, size_t npc, CPCAMODEL *model)
       MT_MatrixDVectorDotProduct(T, w_T, t_new);
      
       /* check for convergence */
-      if(calcConvergence(t_new, t) < CPCACONVERGENCE){
+      if(calcConvergence(t_new, t) < CPCACONVERGENCE || iter >= CPCAMAXITERATIONS){
         #ifdef DEBUG
         printf("new score calculated\n");
         printf("pc: %zu\n", pc);
